@@ -421,6 +421,13 @@ def run_check(pid, tier, seed):
         raise CheckError("unknown property %s" % pid)
     spec = R.REGISTRY[pid]
     ctx = Ctx(pid, tier, seed)
+    # case files left behind by an interrupted run of this check
+    import glob
+    for f in glob.glob(os.path.join(GEN, "cases_%s_*" % pid)) + glob.glob(os.path.join(GEN, ".cases_%s_*" % pid)):
+        try:
+            os.remove(f)
+        except OSError:
+            pass
     coq_make()
     hygiene(ctx)
     print_assumptions(ctx, spec)
